@@ -76,7 +76,7 @@ def literal(value, t):
         s = repr(float(value))
         if "e" not in s and "." not in s and "inf" not in s:
             s += ".0"
-        return s + ("f" if t == "float" else "")
+        return "((float)%s)" % s if t == "float" else s
     suffix = {"int": "", "unsigned int": "U", "long": "L", "unsigned long": "UL", "long long": "LL", "unsigned long long": "ULL"}[promote(t)]
     if value < 0:
         lo, _ = trange(promote(t))
@@ -193,12 +193,6 @@ class _Gen:
             return self.pick(lv)
         return self.lit()
 
-    def index_expr(self, scope, depth, n):
-        e, t = self.expr(scope, depth - 1)
-        if is_float(t):
-            e, t = "(int)(%s)" % e if False else self.lit("int")[0], "int"
-        return "((unsigned int)(%s) %% %dU)" % (e, n)
-
     def expr(self, scope, depth):
         """returns (text, ctype). Side-effect free."""
         if depth <= 0 or self.chance(25):
@@ -212,7 +206,7 @@ class _Gen:
                 op = self.pick(["+", "-", "*", "/"])
                 if op == "/":
                     b, tb = self.lit("double")[0], "double"
-                    if float(b.rstrip("f")) == 0.0:
+                    if b in ("0.0", "-0.0"):
                         b = "2.0"
                     ty = arith(ta, tb)
                 self.features.add("float_arith")
@@ -301,13 +295,20 @@ class _Gen:
         a, ta = self.expr(scope, depth - 1)
         t = self.some_type()
         if is_float(ta) and not is_float(t):
-            t = self.pick(["long", "long long", "int"]) if self.chance(80) else t
             self.features.add("float_to_int")
+            return "((%s)(long)%s)" % (t, a), t
         elif is_float(t):
             self.features.add("int_to_float")
         elif RANK[t] < RANK.get(ta, 9):
             self.features.add("narrowing_cast")
         return "((%s)%s)" % (t, a), t
+
+    def conv(self, e, te, target):
+        """expression text usable where a value of type `target` is needed: float -> integer goes through
+        long (range checked by UBSan), because float -> narrow integer out of range is undefined and unreported"""
+        if is_float(te) and not is_float(target):
+            return "(long)(%s)" % e
+        return e
 
     # -- statements --------------------------------------------------------------
     def new_scope(self, params):
@@ -321,7 +322,7 @@ class _Gen:
         e, te = self.expr(scope, self.opt.max_depth)
         r = self.draw(st.integers(0, 99))
         if r < 60 or not self.opt.compound or is_float(lt):
-            out.append("%s%s = %s;" % (ind, l, e))
+            out.append("%s%s = %s;" % (ind, l, self.conv(e, te, lt)))
             if not is_float(lt) and not is_float(te) and RANK[lt] < RANK[promote(te)]:
                 self.features.add("narrowing_assign")
             return
@@ -353,8 +354,8 @@ class _Gen:
     def stmt_decl(self, scope, ind, out):
         t = self.some_type()
         n = self.fresh("v")
-        e, _ = self.expr(scope, self.opt.max_depth)
-        out.append("%s%s %s = %s;" % (ind, t, n, e))
+        e, te = self.expr(scope, self.opt.max_depth)
+        out.append("%s%s %s = %s;" % (ind, t, n, self.conv(e, te, t)))
         scope["locals"].append((n, t))
 
     def block(self, scope, ind, out, nmax):
@@ -420,15 +421,17 @@ class _Gen:
                 labels = sorted(set(self.draw(st.lists(st.integers(0, 7), min_size=1, max_size=4))))
                 old = scope["in_switch"]
                 for lab in labels:
-                    out.append("%s  case %d:" % (ind, lab))
+                    out.append("%s  case %d: {" % (ind, lab))
                     self.block(scope, ind + "    ", out, 2)
+                    out.append("%s  }" % ind)
                     if self.chance(75):
                         out.append("%s    break;" % ind)
                     else:
                         self.features.add("fallthrough")
                 if self.chance(60):
-                    out.append("%s  default:" % ind)
+                    out.append("%s  default: {" % ind)
                     self.block(scope, ind + "    ", out, 2)
+                    out.append("%s  }" % ind)
                     out.append("%s    break;" % ind)
                 scope["in_switch"] = old
                 out.append("%s}" % ind)
@@ -467,6 +470,7 @@ class _Gen:
                     args.append(n)
                 else:
                     e, te = self.expr(scope, 2)
+                    e = self.conv(e, te, pt)
                     args.append("(%s)(%s)" % (pt, e) if self.chance(30) else e)
             call = "%s(%s)" % (f["name"], ", ".join(args))
             self.features.add("call")
@@ -475,6 +479,8 @@ class _Gen:
                 return
         if lv and self.chance(80):
             l, lt = self.pick(lv)
+            if f is not None and is_float(f["ret"]):
+                call = "(long)" + call
             out.append("%s%s = %s;" % (ind, l, call))
         else:
             out.append("%s%s;" % (ind, call))
@@ -528,7 +534,11 @@ class _Gen:
             t = self.some_type()
             n = self.fresh("g")
             if self.chance(75):
-                v = self.lit(t)[0]
+                if is_float(t) or self.chance(15):
+                    v = self.lit(t)[0]
+                    self.features.add("converted_initializer")
+                else:
+                    v = literal(self.int_value(t), promote(t))
                 L.append("%s %s = %s;" % (t, n, v))
             else:
                 L.append("%s %s;" % (t, n))
@@ -559,7 +569,8 @@ class _Gen:
         for i in range(nf):
             self.gen_function(i)
         observers = self.gen_observers()
-        return {"src": "\n".join(L) + "\n", "funcs": self.funcs, "observers": observers, "features": sorted(self.features)}
+        names = [n for n, _ in self.globals] + [n for n, _, _ in self.arrays] + [n for n, _ in self.struct_vars]
+        return {"src": "\n".join(L) + "\n", "funcs": self.funcs, "observers": observers, "global_names": names, "features": sorted(self.features)}
 
     def gen_function(self, i):
         L = self.lines
@@ -602,14 +613,15 @@ class _Gen:
                 out.append("  struct %s %s = %s;" % (stn, loc, n))
                 fields = dict(self.structs)[stn]
                 ft, fn = self.pick(fields)
-                out.append("  %s.%s = %s;" % (loc, fn, self.expr(scope, 2)[0]))
+                fe, fte = self.expr(scope, 2)
+                out.append("  %s.%s = %s;" % (loc, fn, self.conv(fe, fte, ft)))
                 out.append("  %s = %s;" % (n, loc))
                 self.features.add("struct_copy")
         for _ in range(self.draw(st.integers(1, self.opt.max_stmts))):
             self.stmt(scope, "  ", out)
         if ret != "void":
-            e, _ = self.expr(scope, self.opt.max_depth)
-            out.append("  return %s;" % e)
+            e, te = self.expr(scope, self.opt.max_depth)
+            out.append("  return %s;" % self.conv(e, te, ret))
         L.extend(out)
         L.append("}")
         self.funcs.append({"name": name, "params": ptypes, "ret": ret})
